@@ -201,6 +201,9 @@ BAD_TEMPLATES = [
     ("{fn}(#enterr) > {v}", {}, "unknown meta-variable as context"),
     ("{fn}(!#value_) ", {}, "unknown meta-variable"),
     ("{fn} > #value.real", {}, "unknown (dotted) meta-variable"),
+    ("{fn} > #loop_zz", {}, "loop meta-variable for something that is not a loop variable of the function"),
+    ("{fn}({ctx}) > #endloop_x", {}, "loop meta-variable for something that is not a loop variable of the function"),
+    ("{fn}(#loop_y) > {v}", {}, "loop meta-variable for something that is not a loop variable of the function"),
     ("{fn}({ctx}) > #exit.done", {}, "unknown (dotted) meta-variable"),
     ("{fn}(#error.args) > {v}", {}, "unknown (dotted) meta-variable as context"),
     ("{fn} > {v}:x", {}, "category that is not a tag"),
